@@ -16,7 +16,9 @@ fn ym_ok(m: i32, iv: IntervalYM) -> bool {
     let sign_ok = if m < 0 { s == Sign::Negative } else { s == Sign::Positive };
     let back = IntervalYM::try_from_ym(y, mo).map(|p| if m < 0 { -p } else { p });
     let neg = -iv;
+    let unchecked = unsafe { IntervalYM::from_months_unchecked(m) == iv && (m < 0 || IntervalYM::from_ym_unchecked(yy, mm) == iv) };
     sign_ok
+        && unchecked
         && iv.months() == m
         && (y, mo) == (yy, mm)
         && back == Ok(iv)
@@ -55,7 +57,9 @@ fn dt_check(acc: &mut Acc, idx: u64, u: i64) {
         let sign_ok = if u < 0 { sg == Sign::Negative } else { sg == Sign::Positive };
         let back = IntervalDT::try_from_dhms(ed, eh, emi, es, ef).map(|p| if u < 0 { -p } else { p });
         let neg = -iv;
+        let unchecked = unsafe { IntervalDT::from_usecs_unchecked(u) == iv && (u < 0 || IntervalDT::from_dhms_unchecked(d, h, mi, s, f) == iv) };
         sign_ok
+            && unchecked
             && iv.usecs() == u
             && (ed, eh, emi, es, ef) == (d, h, mi, s, f)
             && back == Ok(iv)
